@@ -805,9 +805,13 @@ func c10r7(c *Ctx, id string) {
 		ok := false
 		allInstrs(m, func(in ssa.Instruction) {
 			if r, isR := in.(*ssa.Return); isR && len(r.Results) == 1 {
-				if call, isC := unwrap(r.Results[0]).(*ssa.Call); isC && call.Common().StaticCallee() == retry {
+				call, isC := unwrap(r.Results[0]).(*ssa.Call)
+				switch {
+				case isC && call.Common().StaticCallee() == retry:
 					ok = true
-				} else {
+				case isC && call.Common().StaticCallee() != nil && w.inModule(call.Common().StaticCallee()) && returnsCallOf(call.Common().StaticCallee(), retry):
+					ok = true // through a helper (possibly generic) that itself returns the retry helper's result
+				default:
 					ok = false
 				}
 			}
@@ -946,4 +950,26 @@ func pickedOnFailedPing(w *World, f *ssa.Function, ping *ssa.Call) bool {
 		})
 	})
 	return found
+}
+
+// returnsCallOf: every return of g hands back, as it is, the result of a call of target.
+func returnsCallOf(g, target *ssa.Function) bool {
+	n, ok := 0, true
+	allInstrs(g, func(in ssa.Instruction) {
+		r, isR := in.(*ssa.Return)
+		if !isR || len(r.Results) != 1 {
+			return
+		}
+		n++
+		call, isC := unwrap(r.Results[0]).(*ssa.Call)
+		if !isC || call.Common().StaticCallee() == nil {
+			ok = false
+			return
+		}
+		callee := call.Common().StaticCallee()
+		if callee != target && (callee.Origin() == nil || callee.Origin() != target) {
+			ok = false
+		}
+	})
+	return ok && n > 0
 }
